@@ -636,7 +636,16 @@ def correspondence(ctx: Ctx, cases: list, impl_fn, coq_expr_fn, compare_fn, impo
     vals = run_coq_cases(ctx.work / tag, exprs, imports, shard=shard, prelude=prelude)
     bad = []
     for c, o, v in zip(cases, observed, vals):
-        mm = compare_fn(c, o, v)
+        try:
+            mm = compare_fn(c, o, v)
+        except HarnessError:
+            raise
+        except Exception as e:  # noqa: BLE001
+            # what the implementation returned has a shape the comparison does not expect: that is a difference
+            # between implementation and model on this case, not a reason to crash the check
+            mm = {"observable": "comparison of implementation and model outputs",
+                  "actual": f"unexpected shape/type of the implementation's output ({type(e).__name__}: {str(e)[:200]})",
+                  "expected": "outputs comparable with the model's"}
         if mm is not None:
             bad.append((c, mm))
     return bad
